@@ -118,9 +118,19 @@ func (r *Report) Finalize(opts *Options, info PropInfo, start time.Time, configs
 		if len(configs) > 1 {
 			per = per / len(configs)
 		}
-		if per < r.floors[rule] {
+		// A behaviour-preserving clean-up can merge duplicated sites (two handler calls hoisted
+		// into one, two refusals sharing one exit), so a count somewhat below the hand-confirmed
+		// one is recorded as a note; losing more than half of the instances (or all of them)
+		// means the rule went blind and fails the check.
+		min := (r.floors[rule] + 1) / 2
+		if min < 1 {
+			min = 1
+		}
+		if per < min {
 			r.Obs = append(r.Obs, Obligation{rule, "instance-floor", "-", Undecided,
 				fmt.Sprintf("undecided: instance floor: rule examined %d instances per configuration, %d confirmed by hand — the rule no longer sees the constructs it was written for", per, r.floors[rule]), ""})
+		} else if per < r.floors[rule] {
+			r.Notes = append(r.Notes, fmt.Sprintf("%s examined %d instances per configuration (%d on the reference tree): sites were merged or removed", rule, per, r.floors[rule]))
 		}
 	}
 	known, err := loadKnown(opts.KnownFile)
